@@ -1,7 +1,9 @@
 """C21 — match limits and cancellation only remove whole files.
 V: for (corpus, query) pairs the unlimited search, then the same search under per-shard /
 per-repository / total match limits, a 1 ns wall-time budget, and a counting context that is
-cancelled at the k-th poll for every k (deterministic enumeration of cancellation points).
+cancelled at the k-th poll for every k (deterministic enumeration of cancellation points); plus
+Search / StreamSearch / List of the real sharded searcher cancelled before the call, by MaxWallTime and
+while queued in the scheduler (batch queue full, time slice over), judged by Trace_Sched.tla.
 Spec (RankLimit!CheckLimited + Geometry!CheckRanges): outcome is a result or an error, never a
 panic or hang; every returned file is in QuerySem!Answer, appears once, and is identical (matches,
 branches, score) to the file of the unlimited run; its ranges satisfy the C02 conditions."""
@@ -33,11 +35,34 @@ def run(ctx):
         if e["outcome"] == "ok" and len(e["files"]) < len(ref["files"]):
             nontriv += 1
     ctx.traces_validated += len(limited)
+
+    # cancellation while the search waits for the scheduler (batch queue full, time slice over), before
+    # the call and by MaxWallTime, on the real sharded searcher with real shards: the calls are recorded
+    # by the C20 callers driver and judged by Trace_Sched.tla; here only "a call crashed or hung" counts
+    rc, out, ptrace = ctx.driver("search", "^TestVerif_C20_Callers$", ["c20_sched_test.go", "c20_callers_test.go"],
+                                 env={"VERIF_C20_PRESSURE_ONLY": 1, "VERIF_C20_CALLER_ROUNDS": ctx.pick(6, 30)},
+                                 out="trace_pressure.ndjson", timeout=1800)
+    if rc != 0:
+        raise vk.Inconclusive("pressure driver failed:\n" + out[-3000:])
+    pev = vk.read_ndjson(ptrace)
+    acc, prej = ctx.validate_trace("Trace_Sched", "Trace_Sched.cfg", ptrace, name="tlc_pressure", timeout=1800)
+    ncalls = sum(1 for e in pev if e["ev"] in ("hold", "fail") and (e["ev"] == "hold" and e["sem"] == "I" or e["sem"] == "acq"))
+    crashed = 0
+    for r in prej:
+        e = pev[r["line"] - 1]
+        if e["ev"] == "fail" and (e["sem"].startswith("panic:") or e["sem"].startswith("hang:")):
+            kind, op = e["sem"].split(":", 1)
+            crashed += 1
+            ctx.violation("C21:outcome:%s:%s:scheduler-pressure" % (kind, op),
+                          {"what": "a cancelled / timed-out %s did not return normally" % op, "event": e,
+                           "before": pev[max(0, r["line"] - 8):r["line"] - 1]})
+    ctx.traces_validated += ncalls - crashed
+    stats["pressure_calls"] = ncalls
     ctx.sample({"limited": {k: limited[len(limited) // 2][k] for k in ("qs", "limits", "cancel", "outcome")}})
     ctx.assumptions += ["'promptly' is only checked as 'returns within 60 s' (a hang is reported, slowness is not)",
                         "cancellation points = polls of ctx.Done()/Err(); at most 24 evenly spread points per search when there are more"]
     return ctx.finish(evaluations=len(limited), distinct_nontrivial=nontriv,
                       rule="limited or cancelled searches compared with their unlimited run; non-trivial = runs in which the limit or "
                            "cancellation actually removed at least one file",
-                      extra={"events": total, "unlimited_searches": searches,
+                      extra={"events": total, "unlimited_searches": searches, "calls_under_scheduler_pressure": stats.get("pressure_calls", 0),
                              "outcomes": {o: sum(1 for e in limited if e["outcome"] == o) for o in {e["outcome"] for e in limited}}})
